@@ -35,12 +35,13 @@ ASSUMPTIONS = ['field values are compared with ==', 'contracts backend: ' + cont
 FIELD_CHOICES = {
     'in_math_mode': [True, False],
     'math_mode_delimiter': [None, '$', '$$', '\\(', '\\[', '€', 'align'],
-    'latex_group_delimiters': [[('{', '}')], [('{', '}'), ('[', ']')], [('<', '>')], [('{', '}'), ('(', ')')]],
+    # None = "back to the default" for the three delimiter lists (documented in set_fields)
+    'latex_group_delimiters': [[('{', '}')], [('{', '}'), ('[', ']')], [('<', '>')], [('{', '}'), ('(', ')')], None],
     'latex_inline_math_delimiters': [[('$', '$'), ('\\(', '\\)')], [('$', '€')], [('€', '€')], [('\\(', '\\)')],
-                                     [('$', '$')]],
+                                     [('$', '$')], None],
     'latex_display_math_delimiters': [[('$$', '$$'), ('\\[', '\\]')], [('$$', '€€')], [('\\[', '\\]')], [('€€', '$$')],
                                       # pairs that are also (default / configured) inline delimiters
-                                      [('\\(', '\\)')], [('$', '$'), ('\\[', '\\]')]],
+                                      [('\\(', '\\)')], [('$', '$'), ('\\[', '\\]')], None],
     'enable_double_newline_paragraphs': [True, False],
     'enable_macros': [True, False],
     'enable_environments': [True, False],
@@ -138,6 +139,10 @@ def parse_with(s, ps):
         return ('exc', type(e).__name__, str(e)[:80])
 
 
+LIST_DEFAULTS = {'latex_group_delimiters': [('{', '}')], 'latex_inline_math_delimiters': [('$', '$'), ('\\(', '\\)')],
+                 'latex_display_math_delimiters': [('$$', '$$'), ('\\[', '\\]')]}
+
+
 def deep_fields(ps):
     """Field values with the list-valued ones copied (a state hands its own list objects on to its children)."""
     import copy
@@ -163,6 +168,9 @@ def build(chain, with_ctx):
                 kw, {k: before[k] for k in before if before[k] != after[k]},
                 {k: after[k] for k in before if before[k] != after[k]})
         model.update(kw)
+        for k, dflt in LIST_DEFAULTS.items():
+            if model.get(k) is None:
+                model[k] = list(dflt)
         # documented normalisation: a delimiter without math mode is dropped
         if not model['in_math_mode']:
             model['math_mode_delimiter'] = None
